@@ -67,15 +67,17 @@ structure Big (S U : List Nat) (v : View) : Prop where
     ∀ id, v.current = some id → ∀ o, v.ops.lookup id = some o → isAckedPublish o.packet = true →
       id ∈ vals v.pendingPub ∨ v.pendingPub.length < rm
   qb : (∀ id ∈ v.userQ ++ v.resubQ ++ v.highQ ++ v.pendingWC, id < v.nextOpId) ∧ ∀ id, v.current = some id → id < v.nextOpId
-  s : v.state = .connected → sortedNat v.userQ = true ∧ sortedNat v.resubQ = true
 
 /-- a Disconnected engine has nothing in flight -/
 def D1 (v : View) : Prop :=
   v.state = .disconnected →
     v.current = none ∧ v.highQ = [] ∧ v.pendingPub = [] ∧ v.pendingNonPub = [] ∧ v.pendingWC = [] ∧ v.noTimeouts = true
 
+/-- while connected, both queues are in submission order -/
+def SQ (v : View) : Prop := v.state = .connected → sortedNat v.userQ = true ∧ sortedNat v.resubQ = true
+
 /-- the full invariant of an engine state -/
-def Inv (e : Engine) : Prop := e.core.Ok ∧ Big [] [] e.view ∧ D1 e.view
+def Inv (e : Engine) : Prop := e.core.Ok ∧ Big [] [] e.view ∧ D1 e.view ∧ SQ e.view
 
 /-! ### association-list facts -/
 
@@ -214,7 +216,7 @@ theorem Big.erase {S U : List Nat} {v : View} (h : Big S U v) {id : Nat} {o : Op
     · intro hh; rw [h2] at hh; cases hh
   refine { p1s := releaseFrom_sorted h.p1s _, p1r := ?_, p2 := ?_, p3 := ?_, p4 := ?_, n := ?_, tps := releaseFrom_sorted h.tps _,
            tp := ?_, tns := releaseFrom_sorted h.tns _, tn := ?_, wc := ?_, loc := ?_, pr := ?_, h2 := ?_, pr2 := ?_,
-           h1 := ?_, c1 := ?_, f := ?_, qb := h.qb, s := ?_ }
+           h1 := ?_, c1 := ?_, f := ?_, qb := h.qb }
   · refine ⟨?_, h.p1r.2⟩
     intro x hx
     apply h.p1r.1 x
@@ -298,8 +300,6 @@ theorem Big.erase {S U : List Nat} {v : View} (h : Big S U v) {id : Nat} {o : Op
     rcases hcur i hi o' ho'' hk with h1 | h1
     · exact .inl (hcp i hne ⟨o', ho''⟩ h1)
     · exact .inr (Nat.lt_of_le_of_lt hle h1)
-  · intro hd
-    exact h.s (hstate3 hd)
 
 def View.released (v : View) (pid : Option Nat) : View :=
   { v with allocated := releaseFrom v.allocated pid, pendingPub := releaseFrom v.pendingPub pid, pendingNonPub := releaseFrom v.pendingNonPub pid }
@@ -433,7 +433,7 @@ theorem Big.replace {S U : List Nat} {v : View} (h : Big S U v) {id : Nat} {o o'
     · rename_i hi; cases hx; exact .inl ⟨hi, rfl⟩
     · rename_i hi; exact .inr ⟨hi, hx⟩
   refine { p1s := h.p1s, p1r := h.p1r, p2 := ?_, p3 := ?_, p4 := ?_, n := ?_, tps := h.tps, tp := ?_, tns := h.tns, tn := ?_,
-           wc := ?_, loc := ?_, pr := ?_, h2 := ?_, pr2 := ?_, h1 := ?_, c1 := ?_, f := ?_, qb := h.qb, s := h.s }
+           wc := ?_, loc := ?_, pr := ?_, h2 := ?_, pr2 := ?_, h1 := ?_, c1 := ?_, f := ?_, qb := h.qb }
   · intro pid i hi
     obtain ⟨x, hx, hp⟩ := h.p2 pid i hi
     by_cases hii : i = id
@@ -698,7 +698,7 @@ theorem sortedNat_tail (a : Nat) (l : List Nat) (hs : sortedNat (a :: l) = true)
 
 theorem Big.setUserQ {S U T : List Nat} {v : View} (h : Big S U v) (uq : List Nat)
     (hloc : ∀ i, i ∈ v.userQ → i ∈ uq ∨ i ∈ T) (hS : ∀ i ∈ S, i ∈ uq ∨ i ∈ T)
-    (hqb : ∀ i ∈ uq, i < v.nextOpId) (hs : v.state = .connected → sortedNat uq = true) :
+    (hqb : ∀ i ∈ uq, i < v.nextOpId) :
     Big T U { v with userQ := uq } := by
   have hl : ∀ i x, v.ops.lookup i = some x → ({ v with userQ := uq } : View).Located i ∨ i ∈ T := by
     intro i x hx
@@ -720,11 +720,11 @@ theorem Big.setUserQ {S U T : List Nat} {v : View} (h : Big S U v) (uq : List Na
     · exact h.qb.1 i (by simp only [List.mem_append]; exact .inl (.inl (.inr a)))
     · exact h.qb.1 i (by simp only [List.mem_append]; exact .inl (.inr a))
     · exact h.qb.1 i (by simp only [List.mem_append]; exact .inr a)
-  exact { h with loc := hl, qb := ⟨hq, h.qb.2⟩, s := fun hd => ⟨hs hd, (h.s hd).2⟩ }
+  exact { h with loc := hl, qb := ⟨hq, h.qb.2⟩ }
 
 theorem Big.setResubQ {S U T : List Nat} {v : View} (h : Big S U v) (rq : List Nat)
     (hloc : ∀ i, i ∈ v.resubQ → i ∈ rq ∨ i ∈ T) (hS : ∀ i ∈ S, i ∈ rq ∨ i ∈ T)
-    (hqb : ∀ i ∈ rq, i < v.nextOpId) (hs : v.state = .connected → sortedNat rq = true) :
+    (hqb : ∀ i ∈ rq, i < v.nextOpId) :
     Big T U { v with resubQ := rq } := by
   have hl : ∀ i x, v.ops.lookup i = some x → ({ v with resubQ := rq } : View).Located i ∨ i ∈ T := by
     intro i x hx
@@ -746,7 +746,7 @@ theorem Big.setResubQ {S U T : List Nat} {v : View} (h : Big S U v) (rq : List N
     · exact hqb i a
     · exact h.qb.1 i (by simp only [List.mem_append]; exact .inl (.inr a))
     · exact h.qb.1 i (by simp only [List.mem_append]; exact .inr a)
-  exact { h with loc := hl, qb := ⟨hq, h.qb.2⟩, s := fun hd => ⟨(h.s hd).1, hs hd⟩ }
+  exact { h with loc := hl, qb := ⟨hq, h.qb.2⟩ }
 
 theorem Big.setHighQ {S U T : List Nat} {v : View} (h : Big S U v) (hq : List Nat)
     (hloc : ∀ i, i ∈ v.highQ → i ∈ hq ∨ i ∈ T) (hS : ∀ i ∈ S, i ∈ hq ∨ i ∈ T)
@@ -868,20 +868,18 @@ theorem PresAdd.core {l : List Nat} {a b : Engine} (h : PresAdd l a b) (hok : a.
 
 /-- queueing a freshly created operation at the back of the user queue -/
 theorem big_enqueue_user_back {S U : List Nat} (e1 : Engine) (id : Nat) (h : Big (id :: S) U e1.view)
-    (hid : id < e1.nextOpId) (hmax : ∀ y ∈ e1.userQ, y ≤ id) :
+    (hid : id < e1.nextOpId) :
     Big S U ({ e1 with userQ := e1.userQ ++ [id] } : Engine).view := by
   show Big S U { e1.view with userQ := e1.userQ ++ [id] }
-  refine h.setUserQ (e1.userQ ++ [id]) (fun i hi => .inl (List.mem_append_left _ hi)) ?_ ?_ ?_
+  refine h.setUserQ (e1.userQ ++ [id]) (fun i hi => .inl (List.mem_append_left _ hi)) ?_ ?_
   · intro i hi
     rcases List.mem_cons.mp hi with rfl | hi'
     · exact .inl (List.mem_append_right _ (List.mem_singleton.mpr rfl))
-    · exact .inr hi'
+    · exact .inr hi' 
   · intro i hi
     rcases List.mem_append.mp hi with a | a
     · exact h.qb.1 i (by simp only [List.mem_append]; exact .inl (.inl (.inl a)))
     · rw [List.mem_singleton.mp a]; exact hid
-  · intro hd
-    exact sortedNat_append_singleton _ _ (h.s hd).1 hmax
 
 /-- queueing a freshly created internal operation in the high-priority queue (front or back) -/
 theorem big_enqueue_high {S U : List Nat} (e1 : Engine) (id : Nat) (o : Op) (front : Bool) (h : Big (id :: S) U e1.view)
@@ -950,10 +948,7 @@ theorem submit_stp {S U : List Nat} (e : Engine) (p : Packet) (user : Option (Na
     simp only [Engine.enqueue, hop, Bool.false_eq_true, ↓reduceIte]
     rcases hq with ⟨rfl, rfl⟩ | ⟨rfl, d, rfl⟩
     · simp only [Bool.false_eq_true, ↓reduceIte]
-      refine big_enqueue_user_back (e.createOp p user).1 e.nextOpId h1 (by rw [f2]; exact Nat.lt_succ_self _) ?_
-      intro y hy
-      rw [f3] at hy
-      exact Nat.le_of_lt (h.qb.1 y (by simp only [List.mem_append]; exact .inl (.inl (.inl hy))))
+      exact big_enqueue_user_back (e.createOp p user).1 e.nextOpId h1 (by rw [f2]; exact Nat.lt_succ_self _)
     · -- a DISCONNECT is accepted only while connected
       have hconn : e.state = .connected := by
         have hp : (e.createOp (.disconnect d) user).1.opPassesPolicy (.disconnect d) = true := by simpa using hpass
@@ -1421,13 +1416,12 @@ theorem Big.setState {S U : List Nat} {v : View} (h : Big S U v) (s' : PState)
     (hc1 : s' = .connected → ∀ id, v.current = some id → ∀ o, v.ops.lookup id = some o → needsPacketId o.packet = true → o.packetId.isSome = true)
     (hf : s' = .connected → ∃ rm, v.rm = some rm ∧ v.pendingPub.length ≤ rm ∧
       ∀ id, v.current = some id → ∀ o, v.ops.lookup id = some o → isAckedPublish o.packet = true →
-        id ∈ vals v.pendingPub ∨ v.pendingPub.length < rm)
-    (hs : s' = .connected → sortedNat v.userQ = true ∧ sortedNat v.resubQ = true) :
+        id ∈ vals v.pendingPub ∨ v.pendingPub.length < rm) :
     Big S U { v with state := s' } :=
-  { h with h1 := hh1, c1 := hc1, f := hf, s := hs }
+  { h with h1 := hh1, c1 := hc1, f := hf }
 
 theorem Big.halt {S U : List Nat} {v : View} (h : Big S U v) : Big S U { v with state := .halted } :=
-  h.setState .halted (fun hh => by cases hh) (fun hh => by cases hh) (fun hh => by cases hh) (fun hh => by cases hh)
+  h.setState .halted (fun hh => by cases hh) (fun hh => by cases hh) (fun hh => by cases hh)
 
 theorem Stp.halt {S U T W : List Nat} {a b : Engine} (h : Stp S U T W a b) : Stp S U T W a { b with state := .halted } :=
   ⟨h.pres.halt, fun hok hb => (h.keeps hok hb).halt⟩
@@ -1456,7 +1450,7 @@ theorem handleOpened_stp (e : Engine) (d : Nat) (hD : D1 e.view) : Stp [] [] [] 
           cases hv : e.view with
           | mk a b c d f g cur i j k l m n o => rw [hv] at this; simp only at this; subst this; rfl
         rw [this]; exact h
-      refine hcur.setState .pendingConnack (fun _ => ?_) (fun hh => by cases hh) (fun hh => by cases hh) (fun hh => by cases hh)
+      refine hcur.setState .pendingConnack (fun _ => ?_) (fun hh => by cases hh) (fun hh => by cases hh)
       refine ⟨?_, ?_, d1c, d1d, d1f⟩
       · intro i hi
         have : e.view.highQ ++ e.view.pendingWC = [] := by rw [d1b, d1e]; rfl
@@ -1509,9 +1503,9 @@ theorem Big.clearCurrent_none {S U : List Nat} {v : View} (h : Big S U v) (hc : 
   · intro i hi; exact .inr hi
 
 /-- putting an excepted operation at the front of the user queue (not while connected) -/
-theorem Big.pushUserFront {S U : List Nat} {v : View} {id : Nat} (h : Big (id :: S) U v) (hid : id < v.nextOpId) (hs : v.state ≠ .connected) :
+theorem Big.pushUserFront {S U : List Nat} {v : View} {id : Nat} (h : Big (id :: S) U v) (hid : id < v.nextOpId) :
     Big S U { v with userQ := id :: v.userQ } := by
-  refine h.setUserQ (id :: v.userQ) (fun i hi => .inl (List.mem_cons_of_mem _ hi)) ?_ ?_ (fun hd => absurd hd hs)
+  refine h.setUserQ (id :: v.userQ) (fun i hi => .inl (List.mem_cons_of_mem _ hi)) ?_ ?_
   · intro i hi
     rcases List.mem_cons.mp hi with rfl | a
     · exact .inl (List.mem_cons_self ..)
@@ -1521,9 +1515,9 @@ theorem Big.pushUserFront {S U : List Nat} {v : View} {id : Nat} (h : Big (id ::
     · exact hid
     · exact h.qb.1 i (by simp only [List.mem_append]; exact .inl (.inl (.inl a)))
 
-theorem Big.pushResubFront {S U : List Nat} {v : View} {id : Nat} (h : Big (id :: S) U v) (hid : id < v.nextOpId) (hs : v.state ≠ .connected) :
+theorem Big.pushResubFront {S U : List Nat} {v : View} {id : Nat} (h : Big (id :: S) U v) (hid : id < v.nextOpId) :
     Big S U { v with resubQ := id :: v.resubQ } := by
-  refine h.setResubQ (id :: v.resubQ) (fun i hi => .inl (List.mem_cons_of_mem _ hi)) ?_ ?_ (fun hd => absurd hd hs)
+  refine h.setResubQ (id :: v.resubQ) (fun i hi => .inl (List.mem_cons_of_mem _ hi)) ?_ ?_
   · intro i hi
     rcases List.mem_cons.mp hi with rfl | a
     · exact .inl (List.mem_cons_self ..)
@@ -1574,7 +1568,7 @@ theorem closeCurrent_stp (e : Engine) (hst : e.state = .disconnected) : Stp [] [
         fun k => ⟨completeFailure_big e id k h, by rw [completeFailure_current]; exact hc, completeFailure_untracks e id k⟩
       have huser : Big [] [] ({ e with userQ := id :: e.userQ } : Engine).view := by
         show Big [] [] { e.view with userQ := id :: e.userQ }
-        refine h.setUserQ (id :: e.userQ) (fun i hi => .inl (List.mem_cons_of_mem _ hi)) (fun i hi => by cases hi) ?_ (fun hd => absurd hd hnc)
+        refine h.setUserQ (id :: e.userQ) (fun i hi => .inl (List.mem_cons_of_mem _ hi)) (fun i hi => by cases hi) ?_
         intro i hi
         rcases List.mem_cons.mp hi with rfl | a
         · exact hidlt
@@ -1593,7 +1587,7 @@ theorem closeCurrent_stp (e : Engine) (hst : e.state = .disconnected) : Stp [] [
           · split
             · exact h
             · show Big [] [] { e.view with resubQ := id :: e.resubQ }
-              refine h.setResubQ (id :: e.resubQ) (fun i hi => .inl (List.mem_cons_of_mem _ hi)) (fun i hi => by cases hi) ?_ (fun hd => absurd hd hnc)
+              refine h.setResubQ (id :: e.resubQ) (fun i hi => .inl (List.mem_cons_of_mem _ hi)) (fun i hi => by cases hi) ?_
               intro i hi
               rcases List.mem_cons.mp hi with rfl | a
               · exact hidlt
@@ -1775,7 +1769,6 @@ theorem closeFailStage_stp (e3 : Engine) (hst : e3.state = .disconnected) : Stp 
     have a : Big x5.1.pendingWC [] e7.view := by
       show Big x5.1.pendingWC [] { e6.view with userQ := e6.userQ ++ pr.1 }
       refine h6.setUserQ (e6.userQ ++ pr.1) (fun i hi => .inl (List.mem_append_left _ hi)) (fun i hi => .inr hi) ?_
-        (fun hd => by rw [show e6.view.state = x5.1.state from rfl, hst5] at hd; cases hd)
       intro i hi
       rcases List.mem_append.mp hi with b | b
       · exact h6.qb.1 i (by simp only [List.mem_append]; exact .inl (.inl (.inl b)))
@@ -1937,7 +1930,7 @@ theorem requeuePubStep_stp (en : Engine) (id : Nat) (hst : en.state = .disconnec
     unfold Engine.setDupFlag; cases en.op? id <;> exact ⟨rfl, rfl, rfl⟩
   show Big [] [] { (en.setDupFlag id true).view with resubQ := en.resubQ ++ [id] }
   refine h1.setResubQ (en.resubQ ++ [id]) (fun i hi => .inl (by rw [show (en.setDupFlag id true).view.resubQ = (en.setDupFlag id true).resubQ from rfl, hf.1] at hi; exact List.mem_append_left _ hi))
-    (fun i hi => by cases hi) ?_ (fun hd => by rw [show (en.setDupFlag id true).view.state = (en.setDupFlag id true).state from rfl, hf.2.2, hst] at hd; cases hd)
+    (fun i hi => by cases hi) ?_
   intro i hi
   rw [show (en.setDupFlag id true).view.nextOpId = (en.setDupFlag id true).nextOpId from rfl, hf.2.1]
   rcases List.mem_append.mp hi with a | a
@@ -2010,7 +2003,6 @@ theorem requeueSub_fold : ∀ (l : List Nat) (en : Engine), en.core.Ok → Big [
     have h' : Big [] [] (requeueSubStep en x).view := by
       show Big [] [] { en.view with userQ := x :: en.userQ }
       refine h.setUserQ (x :: en.userQ) (fun i hi => .inl (List.mem_cons_of_mem _ hi)) (fun i hi => by cases hi) ?_
-        (fun hd => by rw [show en.view.state = en.state from rfl, hst] at hd; cases hd)
       intro i hi
       rcases List.mem_cons.mp hi with rfl | a
       · exact hlt
@@ -2092,7 +2084,7 @@ theorem closeRequeueStage_stp (e9 : Engine) (hst : e9.state = .disconnected) (hh
   have h12 : Big (pr.2 ++ pr.1) [] e12.view := by
     have a : Big e11.userQ [] e12.view := by
       show Big e11.userQ [] { e11.view with userQ := [] }
-      exact h11.setUserQ [] (fun i hi => .inr hi) (fun i hi => by cases hi) (fun i hi => by cases hi) (fun _ => rfl)
+      exact h11.setUserQ [] (fun i hi => .inr hi) (fun i hi => by cases hi) (fun i hi => by cases hi)
     refine a.shrink ?_
     intro id hid
     cases ho : e12.op? id with
@@ -2109,9 +2101,6 @@ theorem closeRequeueStage_stp (e9 : Engine) (hst : e9.state = .disconnected) (hh
   have hfin : Big [] [] ({ x13.1 with userQ := x13.1.userQ ++ pr.1 } : Engine).view := by
     show Big [] [] { x13.1.view with userQ := x13.1.userQ ++ pr.1 }
     refine h13.setUserQ (x13.1.userQ ++ pr.1) (fun i hi => .inl (List.mem_append_left _ hi)) (fun i hi => .inl (List.mem_append_right _ hi)) ?_
-      (fun hd => by
-        have : x13.1.state = .disconnected := by rw [failAll_state pr.2 _ e12 (by rw [show e12.state = e11.state from rfl, hst11]; decide)]; exact hst11
-        rw [show x13.1.view.state = x13.1.state from rfl, this] at hd; cases hd)
     intro i hi
     rw [show x13.1.view.nextOpId = x13.1.nextOpId from rfl, hsame.nextOpId]
     rcases List.mem_append.mp hi with b | b
@@ -2350,17 +2339,17 @@ theorem updateInterrupted_frame (e e2 : Engine) (hi : e.updateInterrupted = some
 
 /-- **`handle_network_event_connection_closed` keeps the invariant and leaves a clean Disconnected engine.** -/
 theorem handleClosed_inv (e : Engine) (hinv : Inv e) : Inv e.handleClosed.1 := by
-  obtain ⟨hok, h, hD⟩ := hinv
+  obtain ⟨hok, h, hD, hS⟩ := hinv
   unfold Engine.handleClosed
   split
-  · exact ⟨hok, h, hD⟩
+  · exact ⟨hok, h, hD, hS⟩
   · simp only []
     -- marked Disconnected, timers and timeout records dropped
     let e0 : Engine := { e with state := .disconnected, connackDeadline := none, nextPing := none, pingDeadline := none, timeouts := [] }
     have hok0 : e0.core.Ok := ((Pres.of_core_conn (e := e) (e' := e0) false rfl (by simp)) hok).1
     have h0 : Big [] [] e0.view := by
       show Big [] [] { e.view with state := .disconnected, noTimeouts := true }
-      exact { h with h1 := (fun hh => by cases hh), c1 := (fun hh => by cases hh), f := (fun hh => by cases hh), s := (fun hh => by cases hh) }
+      exact { h with h1 := (fun hh => by cases hh), c1 := (fun hh => by cases hh), f := (fun hh => by cases hh) }
     have hst0 : e0.state = .disconnected := rfl
     have s1 := closeCurrent_stp e0 hst0
     have h1 := s1.keeps hok0 h0
@@ -2433,13 +2422,937 @@ theorem handleClosed_inv (e : Engine) (hinv : Inv e) : Inv e.handleClosed.1 := b
     have h14 := s14.keeps hok9 h9
     have hok14 := (s14.pres hok9).1
     have q14 := closeRequeueStage_quiet e9 q9
-    generalize e9.closeRequeueStage = x14 at h14 hok14 q14 ⊢
+    have hst14 := GV.closeRequeueStage_state e9 hst9
+    generalize e9.closeRequeueStage = x14 at h14 hok14 q14 hst14 ⊢
     obtain ⟨e14, rd⟩ := x14
-    simp only [] at h14 hok14 q14 ⊢
-    refine ⟨hok14, h14, ?_⟩
-    intro _
-    exact ⟨q14.1.current, q14.1.highQ, q14.2.1, q14.2.2, q14.1.pendingWC, by
-      show e14.timeouts.isEmpty = true
-      rw [q14.1.timeouts]; rfl⟩
+    simp only [] at h14 hok14 q14 hst14 ⊢
+    refine ⟨hok14, h14, ?_, ?_⟩
+    · intro _
+      exact ⟨q14.1.current, q14.1.highQ, q14.2.1, q14.2.2, q14.1.pendingWC, by
+        show e14.timeouts.isEmpty = true
+        rw [q14.1.timeouts]; rfl⟩
+    · intro hc
+      have : e14.state = .disconnected := hst14
+      rw [show e14.view.state = e14.state from rfl, this] at hc; cases hc
+
+/-! ### write completion -/
+
+theorem succeedAll_big_drop {S U : List Nat} : ∀ (ids : List Nat) (e : Engine), Big (ids ++ S) U e.view → Big S U (e.succeedAll ids).1.view := by
+  intro ids e h
+  unfold Engine.succeedAll
+  have : ∀ (l : List Nat) (acc : Engine × Res), Big (l ++ S) U acc.1.view →
+      Big S U (l.foldl (fun (acc : Engine × Res) id => match acc.1.completeSuccess id none with | (e', r) => (e', acc.2.fold r)) acc).1.view := by
+    intro l
+    induction l with
+    | nil => intro acc h; exact h
+    | cons x xs ih =>
+      intro acc h
+      exact ih _ ((completeSuccess_big acc.1 x none h).drop_untracked (completeSuccess_untracks acc.1 x none))
+  exact this ids (e, .ok) h
+
+theorem handleWriteCompletion_stp (e : Engine) : Stp [] [] [] [] e e.handleWriteCompletion.1 := by
+  refine ⟨handleWriteCompletion_pres e, ?_⟩
+  intro hok h
+  unfold Engine.handleWriteCompletion
+  split
+  · exact h
+  · split
+    · exact h.halt
+    · simp only []
+      have h1 : Big (e.pendingWC ++ []) [] ({ e with pendingWrite := false, pendingWC := [] } : Engine).view := by
+        show Big (e.pendingWC ++ []) [] { e.view with pendingWC := [] }
+        rw [List.append_nil]
+        exact h.setPendingWC [] (fun i hi => .inr hi) (fun i hi => by cases hi) (fun i hi => by cases hi) (fun i hi => by cases hi)
+          (fun _ i hi => by cases hi)
+      exact succeedAll_big_drop e.pendingWC _ h1
+
+/-! ### CONNACK: the session stages -/
+
+/-- what a per-operation update does to the table: the updated operation is a variant of the old one -/
+theorem setOp_lookup (en : Engine) (hok : en.core.Ok) (id : Nat) (o o' : Op) (ho : en.op? id = some o) (hid' : o'.id = o.id) (j : Nat) (x' : Op)
+    (h : (en.setOp o').ops.lookup j = some x') : (j = id ∧ x' = o') ∨ (j ≠ id ∧ en.ops.lookup j = some x') := by
+  have hid := hok.id_eq (show en.core.ops.lookup id = some o from ho)
+  simp only [Engine.setOp] at h
+  rw [hid', hid, lookup_mapInsert] at h
+  split at h
+  · rename_i hj; cases h; exact .inl ⟨hj, rfl⟩
+  · rename_i hj; exact .inr ⟨hj, h⟩
+
+theorem setDupFlag_lookup (en : Engine) (hok : en.core.Ok) (id : Nat) (v : Bool) (j : Nat) (x' : Op) (h : (en.setDupFlag id v).ops.lookup j = some x') :
+    ∃ x, en.ops.lookup j = some x ∧ x'.packetId = x.packetId ∧ x'.pubrel = x.pubrel ∧ isAckedPublish x'.packet = isAckedPublish x.packet ∧
+      needsPacketId x'.packet = needsPacketId x.packet := by
+  unfold Engine.setDupFlag at h
+  cases ho : en.op? id with
+  | none => simp only [ho] at h; exact ⟨x', h, rfl, rfl, rfl, rfl⟩
+  | some o =>
+    simp only [ho] at h
+    rcases setOp_lookup en hok id o { o with packet := setDup o.packet v } ho rfl j x' h with ⟨rfl, rfl⟩ | ⟨_, hx⟩
+    · have hc := setDup_class o.packet v
+      exact ⟨o, ho, rfl, rfl, hc.2.2.1, hc.2.1⟩
+    · exact ⟨x', hx, rfl, rfl, rfl, rfl⟩
+
+theorem setDupFlag_lookup_rev (en : Engine) (hok : en.core.Ok) (id : Nat) (v : Bool) (j : Nat) (x : Op) (h : en.ops.lookup j = some x) :
+    ∃ x', (en.setDupFlag id v).ops.lookup j = some x' := by
+  unfold Engine.setDupFlag
+  cases ho : en.op? id with
+  | none => exact ⟨x, h⟩
+  | some o =>
+    have hid := hok.id_eq (show en.core.ops.lookup id = some o from ho)
+    simp only [Engine.setOp]
+    rw [hid, lookup_mapInsert]
+    split
+    · exact ⟨_, rfl⟩
+    · exact ⟨x, h⟩
+
+/-- restarting an operation: no packet id, no QoS 2 progress -/
+def restartStep (en : Engine) (id : Nat) : Engine := (en.unbind id).clearQos2 id
+
+theorem unbind_lookup (en : Engine) (hok : en.core.Ok) (id j : Nat) (x' : Op) (h : (en.unbind id).ops.lookup j = some x') :
+    ∃ x, en.ops.lookup j = some x ∧ (x.packetId = none → x'.packetId = none) ∧ x'.pubrel = x.pubrel ∧ (j = id → x'.packetId = none) ∧
+      isAckedPublish x'.packet = isAckedPublish x.packet ∧ needsPacketId x'.packet = needsPacketId x.packet := by
+  unfold Engine.unbind at h
+  cases ho : en.op? id with
+  | none =>
+    simp only [ho] at h
+    refine ⟨x', h, (fun a => a), rfl, ?_, rfl, rfl⟩
+    intro hj; subst hj
+    rw [show en.ops.lookup j = en.op? j from rfl, ho] at h; cases h
+  | some o =>
+    simp only [ho] at h
+    cases hp : o.packetId with
+    | none =>
+      simp only [hp] at h
+      refine ⟨x', h, (fun a => a), rfl, ?_, rfl, rfl⟩
+      intro hj; subst hj
+      have : en.ops.lookup j = some o := ho
+      rw [this] at h; cases h; exact hp
+    | some pid =>
+      simp only [hp] at h
+      have hok' : ({ en with allocated := mapErase en.allocated pid } : Engine).core.Ok := hok
+      rcases setOp_lookup { en with allocated := mapErase en.allocated pid } hok' id o { o with packetId := none, packet := withPacketId o.packet 0 } ho rfl j x' h with ⟨rfl, rfl⟩ | ⟨hne, hx⟩
+      · have hc := withPacketId_class o.packet 0
+        exact ⟨o, ho, (fun _ => rfl), rfl, (fun _ => rfl), hc.2.1, hc.1⟩
+      · exact ⟨x', hx, (fun a => a), rfl, (fun hj => absurd hj hne), rfl, rfl⟩
+
+theorem clearQos2_lookup (en : Engine) (hok : en.core.Ok) (id j : Nat) (x' : Op) (h : (en.clearQos2 id).ops.lookup j = some x') :
+    ∃ x, en.ops.lookup j = some x ∧ x'.packetId = x.packetId ∧ (x.pubrel = none → x'.pubrel = none) ∧ (j = id → x'.pubrel = none) ∧
+      x'.packet = x.packet := by
+  unfold Engine.clearQos2 at h
+  cases ho : en.op? id with
+  | none =>
+    simp only [ho] at h
+    refine ⟨x', h, rfl, (fun a => a), ?_, rfl⟩
+    intro hj; subst hj
+    rw [show en.ops.lookup j = en.op? j from rfl, ho] at h; cases h
+  | some o =>
+    simp only [ho] at h
+    rcases setOp_lookup en hok id o { o with pubrel := none } ho rfl j x' h with ⟨rfl, rfl⟩ | ⟨hne, hx⟩
+    · exact ⟨o, ho, rfl, (fun _ => rfl), (fun _ => rfl), rfl⟩
+    · exact ⟨x', hx, rfl, (fun a => a), (fun hj => absurd hj hne), rfl⟩
+
+theorem restartStep_lookup (en : Engine) (hok : en.core.Ok) (id j : Nat) (x' : Op) (h : (restartStep en id).ops.lookup j = some x') :
+    ∃ x, en.ops.lookup j = some x ∧ (x.packetId = none → x'.packetId = none) ∧ (x.pubrel = none → x'.pubrel = none) ∧
+      (j = id → x'.packetId = none ∧ x'.pubrel = none) ∧
+      isAckedPublish x'.packet = isAckedPublish x.packet ∧ needsPacketId x'.packet = needsPacketId x.packet := by
+  unfold restartStep at h
+  have hok1 : (en.unbind id).core.Ok := (unbind_pres en id hok).1
+  obtain ⟨y, hy, c1, c2, c3, c4⟩ := clearQos2_lookup (en.unbind id) hok1 id j x' h
+  obtain ⟨x, hx, u1, u2, u3, u4, u5⟩ := unbind_lookup en hok id j y hy
+  refine ⟨x, hx, fun a => by rw [c1]; exact u1 a, fun a => c2 (by rw [u2]; exact a), fun hj => ⟨by rw [c1]; exact u3 hj, c3 hj⟩, ?_, ?_⟩
+  · rw [c4]; exact u4
+  · rw [c4]; exact u5
+
+theorem restartStep_frame (en : Engine) (id : Nat) :
+    (restartStep en id).highQ = en.highQ ∧ (restartStep en id).current = en.current ∧ (restartStep en id).pendingPub = en.pendingPub ∧
+    (restartStep en id).pendingNonPub = en.pendingNonPub ∧ (restartStep en id).userQ = en.userQ ∧ (restartStep en id).resubQ = en.resubQ ∧
+    (restartStep en id).state = en.state := by
+  unfold restartStep Engine.clearQos2 Engine.unbind
+  cases en.op? id with
+  | none => simp only []; cases en.op? id <;> exact ⟨rfl, rfl, rfl, rfl, rfl, rfl, rfl⟩
+  | some o =>
+    simp only []
+    cases o.packetId with
+    | none => simp only []; cases en.op? id <;> exact ⟨rfl, rfl, rfl, rfl, rfl, rfl, rfl⟩
+    | some pid =>
+      simp only []
+      generalize (Engine.setOp _ _ : Engine).op? id = w
+      have : ∀ (e2 : Engine), (match w with | some o => e2.setOp { o with pubrel := none } | none => e2).highQ = e2.highQ ∧
+          (match w with | some o => e2.setOp { o with pubrel := none } | none => e2).current = e2.current ∧
+          (match w with | some o => e2.setOp { o with pubrel := none } | none => e2).pendingPub = e2.pendingPub ∧
+          (match w with | some o => e2.setOp { o with pubrel := none } | none => e2).pendingNonPub = e2.pendingNonPub ∧
+          (match w with | some o => e2.setOp { o with pubrel := none } | none => e2).userQ = e2.userQ ∧
+          (match w with | some o => e2.setOp { o with pubrel := none } | none => e2).resubQ = e2.resubQ ∧
+          (match w with | some o => e2.setOp { o with pubrel := none } | none => e2).state = e2.state := by
+        intro e2; cases w <;> exact ⟨rfl, rfl, rfl, rfl, rfl, rfl, rfl⟩
+      exact this _
+
+/-- what holds of the engine while a CONNACK is being applied (it held in PendingConnack; the state is already Connected) -/
+structure Handshaken (en : Engine) : Prop where
+  pub : en.pendingPub = []
+  non : en.pendingNonPub = []
+  high : ∀ id ∈ en.highQ, ∀ o, en.ops.lookup id = some o → isAckedPublish o.packet = false ∧ needsPacketId o.packet = false
+  cur : ∀ id, en.current = some id → ∀ o, en.ops.lookup id = some o → needsPacketId o.packet = false
+
+theorem unbind_highQ (en : Engine) (id : Nat) : (en.unbind id).highQ = en.highQ := by
+  unfold Engine.unbind
+  cases en.op? id with
+  | none => rfl
+  | some o => simp only []; cases o.packetId <;> rfl
+
+theorem restartStep_stp {S U : List Nat} (en : Engine) (id : Nat) (hj : Handshaken en) : Stp S U S U en (restartStep en id) := by
+  have s1 : Stp S U S U en (en.unbind id) :=
+    unbind_stp en id ⟨(by rw [hj.pub]; exact fun h => by cases h), (by rw [hj.non]; exact fun h => by cases h)⟩
+      (fun _ hc o ho => hj.cur id hc o ho)
+  refine ⟨s1.pres.trans (clearQos2_pres _ id), ?_⟩
+  intro hok h
+  have hok1 := (s1.pres hok).1
+  refine (clearQos2_stp (S := S) (U := U) (en.unbind id) id ?_).keeps hok1 (s1.keeps hok h)
+  intro hi o ho
+  rw [unbind_highQ] at hi
+  obtain ⟨x, hx, _, _, _, hk, _⟩ := unbind_lookup en hok id id o ho
+  rw [hk]; exact (hj.high id hi x hx).1
+
+theorem restartStep_handshaken (en : Engine) (hok : en.core.Ok) (id : Nat) (hj : Handshaken en) : Handshaken (restartStep en id) := by
+  have f := restartStep_frame en id
+  refine ⟨f.2.2.1.trans hj.pub, f.2.2.2.1.trans hj.non, ?_, ?_⟩
+  · intro i hi o ho
+    rw [f.1] at hi
+    obtain ⟨x, hx, _, _, _, k1, k2⟩ := restartStep_lookup en hok id i o ho
+    rw [k1, k2]; exact hj.high i hi x hx
+  · intro i hi o ho
+    rw [f.2.1] at hi
+    obtain ⟨x, hx, _, _, _, _, k2⟩ := restartStep_lookup en hok id i o ho
+    rw [k2]; exact hj.cur i hi x hx
+
+/-- the restart loop over the user queue: afterwards none of the listed operations holds a packet id or a PUBREL -/
+theorem restart_fold {S U : List Nat} : ∀ (l : List Nat) (en : Engine) (done : List Nat), en.core.Ok → Big S U en.view → Handshaken en →
+    (∀ id ∈ done, ∀ o, en.ops.lookup id = some o → o.packetId = none ∧ o.pubrel = none) →
+    (l.foldl restartStep en).core.Ok ∧ Big S U (l.foldl restartStep en).view ∧ Handshaken (l.foldl restartStep en) ∧
+    (l.foldl restartStep en).userQ = en.userQ ∧ (l.foldl restartStep en).resubQ = en.resubQ ∧ (l.foldl restartStep en).state = en.state ∧
+    (∀ id ∈ done ++ l, ∀ o, (l.foldl restartStep en).ops.lookup id = some o → o.packetId = none ∧ o.pubrel = none) := by
+  intro l
+  induction l with
+  | nil => intro en done hok h hj hd; exact ⟨hok, h, hj, rfl, rfl, rfl, by simpa using hd⟩
+  | cons x xs ih =>
+    intro en done hok h hj hd
+    have st := restartStep_stp (S := S) (U := U) en x hj
+    have hok' := (st.pres hok).1
+    have h' := st.keeps hok h
+    have hj' := restartStep_handshaken en hok x hj
+    have f := restartStep_frame en x
+    have hd' : ∀ id ∈ done ++ [x], ∀ o, (restartStep en x).ops.lookup id = some o → o.packetId = none ∧ o.pubrel = none := by
+      intro id hid o ho
+      obtain ⟨y, hy, k1, k2, k3, _⟩ := restartStep_lookup en hok x id o ho
+      rcases List.mem_append.mp hid with a | a
+      · exact ⟨k1 (hd id a y hy).1, k2 (hd id a y hy).2⟩
+      · exact k3 (List.mem_singleton.mp a)
+    have r := ih (restartStep en x) (done ++ [x]) hok' h' hj' hd'
+    simp only [List.foldl]
+    refine ⟨r.1, r.2.1, r.2.2.1, r.2.2.2.1.trans f.2.2.2.2.1, r.2.2.2.2.1.trans f.2.2.2.2.2.1, r.2.2.2.2.2.1.trans f.2.2.2.2.2.2, ?_⟩
+    intro id hid
+    apply r.2.2.2.2.2.2 id
+    simp only [List.mem_append, List.mem_cons, List.not_mem_nil, or_false] at hid ⊢
+    rcases hid with a | a | a
+    · exact .inl (.inl a)
+    · exact .inl (.inr a)
+    · exact .inr a
+
+/-- exemptions can be dropped once none of the exempted operations holds a packet id or a PUBREL -/
+theorem Big.dropU {S U : List Nat} {v : View} (h : Big S U v)
+    (hn : ∀ id ∈ U, ∀ o, v.ops.lookup id = some o → o.packetId = none ∧ o.pubrel = none) : Big S [] v := by
+  have hp3 : ∀ id o pid, v.ops.lookup id = some o → o.packetId = some pid →
+      v.allocated.lookup pid = some id ∨ (id ∈ ([] : List Nat) ∧ v.allocated = [] ∧ v.pendingPub = [] ∧ v.pendingNonPub = []) := by
+    intro id o pid ho hp
+    rcases h.p3 id o pid ho hp with a | a
+    · exact .inl a
+    · have := (hn id a.1 o ho).1; rw [this] at hp; cases hp
+  have hpr : ∀ id o, v.ops.lookup id = some o → o.pubrel.isSome = true → pktDup o.packet = true ∨ id ∈ vals v.pendingPub ∨ id ∈ ([] : List Nat) := by
+    intro id o ho hp
+    rcases h.pr id o ho hp with a | a | a
+    · exact .inl a
+    · exact .inr (.inl a)
+    · have := (hn id a o ho).2; rw [this] at hp; cases hp
+  exact { h with p3 := hp3, pr := hpr }
+
+theorem sortIds_mem (l : List Nat) (x : Nat) : x ∈ sortIds l ↔ x ∈ l := (sortIds_perm l).mem_iff
+
+/-- `apply_session_present_to_connection`, second half: everything in the user queue is restarted, both queues are sorted -/
+theorem sessionRequeueStage_big (e1 : Engine) (hok : e1.core.Ok) (h : Big [] e1.userQ e1.view) (hj : Handshaken e1) :
+    e1.sessionRequeueStage.core.Ok ∧ Big [] [] e1.sessionRequeueStage.view ∧
+    sortedNat e1.sessionRequeueStage.userQ = true ∧ sortedNat e1.sessionRequeueStage.resubQ = true ∧
+    e1.sessionRequeueStage.state = e1.state := by
+  have r := restart_fold (S := []) (U := e1.userQ) e1.userQ e1 [] hok h hj (fun _ hi => by cases hi)
+  let e2 := e1.userQ.foldl restartStep e1
+  have h2 : Big [] [] e2.view := r.2.1.dropU (fun id hid o ho => r.2.2.2.2.2.2 id (by simpa using hid) o ho)
+  have hres : e1.sessionRequeueStage = { e2 with resubQ := sortIds e2.resubQ, userQ := sortIds e2.userQ } := rfl
+  rw [hres]
+  refine ⟨r.1, ?_, sortIds_sorted _, sortIds_sorted _, r.2.2.2.2.2.1⟩
+  show Big [] [] { { e2.view with resubQ := sortIds e2.resubQ } with userQ := sortIds e2.userQ }
+  have a : Big [] [] { e2.view with resubQ := sortIds e2.resubQ } :=
+    h2.setResubQ (sortIds e2.resubQ) (fun i hi => .inl ((sortIds_mem _ i).mpr hi)) (fun i hi => by cases hi)
+      (fun i hi => h2.qb.1 i (by simp only [List.mem_append]; exact .inl (.inl (.inr ((sortIds_mem _ i).mp hi)))))
+  exact a.setUserQ (sortIds e2.userQ) (fun i hi => .inl ((sortIds_mem _ i).mpr hi)) (fun i hi => by cases hi)
+    (fun i hi => a.qb.1 i (by simp only [List.mem_append]; exact .inl (.inl (.inl ((sortIds_mem _ i).mp hi)))))
+
+theorem lookup_filter_not_contains {β} (m : List (Nat × β)) (ids : List Nat) (id : Nat) (h : id ∈ ids) :
+    (m.filter (fun x => !ids.contains x.1)).lookup id = none := by
+  apply lookup_none_iff.mpr
+  intro y hy hyid
+  have := (List.mem_filter.mp hy).2
+  rw [hyid] at this
+  have hc : ids.contains id = true := by simpa using h
+  rw [hc] at this; cases this
+
+theorem failAll_untracks (e : Engine) (ids : List Nat) (k : String) (id : Nat) (h : id ∈ ids) : (e.failAll ids k).1.ops.lookup id = none := by
+  unfold Engine.failAll
+  rw [failAll_ops]
+  exact lookup_filter_not_contains _ ids id h
+
+def clearDupStep (en : Engine) (id : Nat) : Engine := en.setDupFlag id false
+
+theorem setDupFlag_frame (en : Engine) (id : Nat) (v : Bool) :
+    (en.setDupFlag id v).highQ = en.highQ ∧ (en.setDupFlag id v).current = en.current ∧ (en.setDupFlag id v).pendingPub = en.pendingPub ∧
+    (en.setDupFlag id v).pendingNonPub = en.pendingNonPub ∧ (en.setDupFlag id v).userQ = en.userQ ∧ (en.setDupFlag id v).resubQ = en.resubQ ∧
+    (en.setDupFlag id v).state = en.state ∧ (en.setDupFlag id v).nextOpId = en.nextOpId := by
+  unfold Engine.setDupFlag
+  cases en.op? id <;> exact ⟨rfl, rfl, rfl, rfl, rfl, rfl, rfl, rfl⟩
+
+/-- clearing DUP on the listed (exempt) operations -/
+theorem clearDup_fold {S U : List Nat} : ∀ (l : List Nat) (en : Engine), (∀ id ∈ l, id ∈ U) → en.core.Ok → Big S U en.view →
+    (l.foldl clearDupStep en).core.Ok ∧ Big S U (l.foldl clearDupStep en).view ∧
+    (l.foldl clearDupStep en).highQ = en.highQ ∧ (l.foldl clearDupStep en).current = en.current ∧
+    (l.foldl clearDupStep en).pendingPub = en.pendingPub ∧ (l.foldl clearDupStep en).pendingNonPub = en.pendingNonPub ∧
+    (l.foldl clearDupStep en).userQ = en.userQ ∧ (l.foldl clearDupStep en).resubQ = en.resubQ ∧
+    ((l.foldl clearDupStep en).state = en.state ∧ (l.foldl clearDupStep en).nextOpId = en.nextOpId) ∧
+    (∀ j x', (l.foldl clearDupStep en).ops.lookup j = some x' → ∃ x, en.ops.lookup j = some x ∧ x'.packetId = x.packetId ∧
+      isAckedPublish x'.packet = isAckedPublish x.packet ∧ needsPacketId x'.packet = needsPacketId x.packet) ∧
+    (∀ j x, en.ops.lookup j = some x → ∃ x', (l.foldl clearDupStep en).ops.lookup j = some x') := by
+  intro l
+  induction l with
+  | nil => intro en _ hok h; exact ⟨hok, h, rfl, rfl, rfl, rfl, rfl, rfl, ⟨rfl, rfl⟩, (fun j x' hx => ⟨x', hx, rfl, rfl, rfl⟩), (fun j x hx => ⟨x, hx⟩)⟩
+  | cons a rest ih =>
+    intro en hU hok h
+    have st := setDupFlag_false_stp (S := S) en a (hU a (List.mem_cons_self ..))
+    have hok' := (st.pres hok).1
+    have h' := st.keeps hok h
+    have f := setDupFlag_frame en a false
+    have r := ih (clearDupStep en a) (fun id hid => hU id (List.mem_cons_of_mem _ hid)) hok' h'
+    simp only [List.foldl]
+    refine ⟨r.1, r.2.1, r.2.2.1.trans f.1, r.2.2.2.1.trans f.2.1, r.2.2.2.2.1.trans f.2.2.1, r.2.2.2.2.2.1.trans f.2.2.2.1,
+      r.2.2.2.2.2.2.1.trans f.2.2.2.2.1, r.2.2.2.2.2.2.2.1.trans f.2.2.2.2.2.1,
+      ⟨r.2.2.2.2.2.2.2.2.1.1.trans f.2.2.2.2.2.2.1, r.2.2.2.2.2.2.2.2.1.2.trans f.2.2.2.2.2.2.2⟩, ?_, ?_⟩
+    · intro j x' hx
+      obtain ⟨y, hy, k1, k2, k3⟩ := r.2.2.2.2.2.2.2.2.2.1 j x' hx
+      obtain ⟨x, hx0, m1, _, m3, m4⟩ := setDupFlag_lookup en hok a false j y hy
+      exact ⟨x, hx0, k1.trans m1, k2.trans m3, k3.trans m4⟩
+    · intro j x hx
+      obtain ⟨y, hy⟩ := setDupFlag_lookup_rev en hok a false j x hx
+      exact r.2.2.2.2.2.2.2.2.2.2 j y hy
+
+/-- `apply_session_present_to_connection`, the session was lost -/
+theorem sessionLostStage_big (e : Engine) (hok : e.core.Ok) (h : Big [] [] e.view) (hj : Handshaken e) (hst : e.state = .connected)
+    (hOff : ∀ id o, e.ops.lookup id = some o → o.packetId.isSome = true → id ∈ e.userQ ∨ id ∈ e.resubQ) :
+    e.sessionLostStage.1.core.Ok ∧ Big [] e.sessionLostStage.1.userQ e.sessionLostStage.1.view ∧ Handshaken e.sessionLostStage.1 ∧
+    e.sessionLostStage.1.state = e.state := by
+  let e0 : Engine := { e with resubQ := [] }
+  let pr := e0.partitionByPolicy e.resubQ
+  let ea := pr.1.foldl clearDupStep e0
+  let eb : Engine := { ea with userQ := ea.userQ ++ pr.1 }
+  let xc := eb.failAll pr.2 "OfflineQueuePolicyFailed"
+  have hres : e.sessionLostStage.1 = { xc.1 with inQos2 := [], allocated := [] } := rfl
+  let W := e.userQ ++ pr.1
+  have hpm := partitionByPolicy_mem e0 e.resubQ
+  -- resubQ emptied
+  have h0 : Big e.resubQ W e0.view := by
+    show Big e.resubQ W { e.view with resubQ := [] }
+    have hw : Big [] W e.view := h.weaken (fun _ hi => hi) (fun _ hi => by cases hi)
+    exact hw.setResubQ [] (fun i hi => .inr hi) (fun i hi => by cases hi) (fun i hi => by cases hi)
+  have ra := clearDup_fold (S := e.resubQ) (U := W) pr.1 e0 (fun id hid => List.mem_append_right _ hid) hok h0
+  have hqa : ea.userQ = e.userQ := ra.2.2.2.2.2.2.1
+  -- retained operations rejoin the user queue
+  have hb : Big (pr.2 ++ []) W eb.view := by
+    have a : Big e.resubQ W eb.view := by
+      show Big e.resubQ W { ea.view with userQ := ea.userQ ++ pr.1 }
+      refine ra.2.1.setUserQ (ea.userQ ++ pr.1) (fun i hi => .inl (List.mem_append_left _ hi)) (fun i hi => .inr hi) ?_
+      intro i hi
+      rcases List.mem_append.mp hi with b | b
+      · exact ra.2.1.qb.1 i (by simp only [List.mem_append]; exact .inl (.inl (.inl b)))
+      · have : i ∈ e.resubQ := hpm.1 i b
+        have hlt := h.qb.1 i (by simp only [List.mem_append]; exact .inl (.inl (.inr this)))
+        show i < ea.nextOpId
+        rw [ra.2.2.2.2.2.2.2.2.1.2]; exact hlt
+    refine a.shrink ?_
+    intro id hid
+    cases ho : e0.op? id with
+    | none =>
+      right; right
+      cases hb' : eb.ops.lookup id with
+      | none => exact hb'
+      | some x' =>
+        obtain ⟨x, hx, _⟩ := ra.2.2.2.2.2.2.2.2.2.1 id x' hb'
+        rw [show e0.ops.lookup id = e0.op? id from rfl, ho] at hx; cases hx
+    | some o =>
+      rcases hpm.2.2 id hid (by rw [ho]; rfl) with b | b
+      · exact .inr (.inl (.inl (List.mem_append_right _ b)))
+      · exact .inl (List.mem_append_left _ b)
+  have hokb : eb.core.Ok := ra.1
+  have sc := failAll_step_drop (S := []) (U := W) eb pr.2 "OfflineQueuePolicyFailed"
+  have hc : Big [] W xc.1.view := sc.keeps hokb hb
+  have hokc : xc.1.core.Ok := (sc.pres hokb).1
+  have same := failAll_same "OfflineQueuePolicyFailed" pr.2 eb
+  have hsub := failAll_sub eb pr.2 "OfflineQueuePolicyFailed"
+  -- every lookup after the stage leads back to an operation of `e` of the same kind and with the same packet id
+  have back : ∀ j x', xc.1.ops.lookup j = some x' → ∃ x, e.ops.lookup j = some x ∧ x'.packetId = x.packetId ∧
+      isAckedPublish x'.packet = isAckedPublish x.packet ∧ needsPacketId x'.packet = needsPacketId x.packet := by
+    intro j x' hx
+    exact ra.2.2.2.2.2.2.2.2.2.1 j x' (hsub j x' hx)
+  have tabs : xc.1.pendingPub = [] ∧ xc.1.pendingNonPub = [] := by
+    have p0 : eb.pendingPub = [] ∧ eb.pendingNonPub = [] := ⟨ra.2.2.2.2.1.trans hj.pub, ra.2.2.2.2.2.1.trans hj.non⟩
+    exact failAll_keeps (fun en => en.pendingPub = [] ∧ en.pendingNonPub = [])
+      (fun en id k hh => ⟨(completeFailure_tables en id k).1 hh.1, (completeFailure_tables en id k).2 hh.2⟩) _ pr.2 eb p0
+  have huq : xc.1.userQ = W := by rw [same.userQ]; show ea.userQ ++ pr.1 = _; rw [hqa]
+  rw [hres]
+  refine ⟨hokc, ?_, ?_, ?_⟩
+  · -- nothing is reserved any more; every operation that still carries an id waits in the user queue
+    show Big [] xc.1.userQ { xc.1.view with allocated := [] }
+    rw [huq]
+    have hp3 : ∀ id o pid, xc.1.view.ops.lookup id = some o → o.packetId = some pid →
+        ([] : List (Nat × Nat)).lookup pid = some id ∨ (id ∈ W ∧ ([] : List (Nat × Nat)) = [] ∧ xc.1.view.pendingPub = [] ∧ xc.1.view.pendingNonPub = []) := by
+      intro id o pid ho hp
+      right
+      refine ⟨?_, rfl, tabs.1, tabs.2⟩
+      obtain ⟨x, hx, k1, _⟩ := back id o ho
+      rcases hOff id x hx (by rw [← k1, hp]; rfl) with a | a
+      · exact List.mem_append_left _ a
+      · rcases hpm.2.2 id a (by rw [show e0.op? id = e.ops.lookup id from rfl, hx]; rfl) with b | b
+        · exact List.mem_append_right _ b
+        · have := failAll_untracks eb pr.2 "OfflineQueuePolicyFailed" id b
+          rw [show xc.1.view.ops.lookup id = xc.1.ops.lookup id from rfl, this] at ho; cases ho
+    exact { hc with p1s := KeysSorted.nil, p1r := ⟨(fun x hx => by cases hx), hc.p1r.2⟩, p2 := (fun q i hq => by cases hq), p3 := hp3 }
+  · refine ⟨tabs.1, tabs.2, ?_, ?_⟩
+    · intro i hi o ho
+      have hi' : i ∈ e.highQ := by
+        have : xc.1.highQ = e.highQ := same.highQ.trans ra.2.2.1
+        rw [← this]; exact hi
+      obtain ⟨x, hx, _, k2, k3⟩ := back i o ho
+      rw [k2, k3]; exact hj.high i hi' x hx
+    · intro i hi o ho
+      have hi' : e.current = some i := by
+        have : xc.1.current = e.current := same.current.trans ra.2.2.2.1
+        rw [← this]; exact hi
+      obtain ⟨x, hx, _, _, k3⟩ := back i o ho
+      rw [k3]; exact hj.cur i hi' x hx
+  · show xc.1.state = e.state
+    have hsb : eb.state = e.state := ra.2.2.2.2.2.2.2.2.1.1
+    rw [failAll_state pr.2 _ eb (by rw [hsb, hst]; decide)]; exact hsb
+
+theorem connect_class (p : Packet) (h : isConnectPacket p = true) : isAckedPublish p = false ∧ needsPacketId p = false := by
+  cases p <;> simp [isConnectPacket] at h <;> exact ⟨rfl, rfl⟩
+
+theorem initSlowStart_view (e : Engine) : e.initSlowStart.view = e.view ∧ e.initSlowStart.state = e.state ∧ e.initSlowStart.userQ = e.userQ ∧
+    e.initSlowStart.resubQ = e.resubQ ∧ e.initSlowStart.highQ = e.highQ ∧ e.initSlowStart.current = e.current ∧
+    e.initSlowStart.pendingPub = e.pendingPub ∧ e.initSlowStart.pendingNonPub = e.pendingNonPub ∧ e.initSlowStart.ops = e.ops := by
+  unfold Engine.initSlowStart
+  split <;> exact ⟨rfl, rfl, rfl, rfl, rfl, rfl, rfl, rfl, rfl⟩
+
+/-- **`handle_connack` keeps the invariant** -/
+theorem handleConnack_inv (e : Engine) (c : Connack) (hinv : Inv e) :
+    Inv (e.handleConnack c).1 ∧ ((e.handleConnack c).1.state = e.state ∨ (e.handleConnack c).1.state = .connected) := by
+  obtain ⟨hok, h, hD, hS⟩ := hinv
+  have hokr := (handleConnack_pres e c hok).1
+  unfold Engine.handleConnack at hokr ⊢
+  split
+  · exact ⟨⟨hok, h, hD, hS⟩, .inl rfl⟩
+  · rename_i hstn
+    have hst : e.state = .pendingConnack := by
+      cases hs : e.state <;> simp [hs] at hstn <;> rfl
+    split
+    · exact ⟨⟨hok, h, hD, hS⟩, .inl rfl⟩
+    · split
+      · exact ⟨⟨hok, h, hD, hS⟩, .inl rfl⟩
+      · simp only [hstn, ↓reduceIte] at hokr
+        obtain ⟨ha, hb, hpp, hpn, hnt⟩ := h.h1 hst
+        let e1 : Engine := { e with state := .connected, hasConnected := true, settings := some (e.buildSettings c), connackDeadline := none, outRes := e.outRes.reset (c.topicAliasMaximum.getD 0), inRes := e.inRes.reset, pingDeadline := none, nextPing := (if (e.buildSettings c).serverKeepAlive > 0 then some (e.now + (e.buildSettings c).serverKeepAlive * 1000) else none) }
+        let e2 := e1.initSlowStart
+        have iv := initSlowStart_view e1
+        -- connected, nothing in flight but the CONNECT
+        have h1 : Big [] [] e1.view := by
+          show Big [] [] { e.view with state := .connected, rm := some (e.buildSettings c).receiveMaximum }
+          exact { h with
+            h1 := (fun hh => by cases hh)
+            c1 := (fun _ i hi o ho hk => by
+              have := (connect_class _ (hb i hi o ho)).2
+              rw [this] at hk; cases hk)
+            f := (fun _ => ⟨_, rfl, by rw [show e.view.pendingPub = [] from hpp]; exact Nat.zero_le _, fun i hi o ho hk => by
+              have := (connect_class _ (hb i hi o ho)).1
+              rw [this] at hk; cases hk⟩) }
+        have h2 : Big [] [] e2.view := by rw [iv.1]; exact h1
+        have hok2 : e2.core.Ok := by
+          have : Pres e e2 := by
+            intro hok0
+            unfold e2 Engine.initSlowStart
+            by_cases hd : e.cfg.drainOneAtATime = true
+            · have : (!e1.cfg.drainOneAtATime) = false := by simp [e1, hd]
+              rw [if_neg (by simp [this])]
+              exact ⟨⟨hok0.sorted, hok0.ids, hok0.userKind, hok0.wc, fun _ _ => rfl⟩, List.Perm.refl _⟩
+            · have : (!e1.cfg.drainOneAtATime) = true := by simp [e1, hd]
+              rw [if_pos this]
+              exact ⟨⟨hok0.sorted, hok0.ids, hok0.userKind, hok0.wc, fun hh _ => absurd hh hd⟩, List.Perm.refl _⟩
+          exact (this hok).1
+        have hj2 : Handshaken e2 := by
+          refine ⟨iv.2.2.2.2.2.2.1.trans hpp, iv.2.2.2.2.2.2.2.1.trans hpn, ?_, ?_⟩
+          · intro i hi o ho
+            rw [iv.2.2.2.2.1] at hi
+            rw [iv.2.2.2.2.2.2.2.2] at ho
+            exact connect_class _ (ha i (List.mem_append_left _ hi) o ho)
+          · intro i hi o ho
+            rw [iv.2.2.2.2.2.1] at hi
+            rw [iv.2.2.2.2.2.2.2.2] at ho
+            exact (connect_class _ (hb i hi o ho)).2
+        have hst2 : e2.state = .connected := iv.2.1
+        -- operations that still carry a packet id wait in one of the two queues
+        have hOff : ∀ id o, e2.ops.lookup id = some o → o.packetId.isSome = true → id ∈ e2.userQ ∨ id ∈ e2.resubQ := by
+          intro id o ho hp
+          rw [iv.2.2.2.2.2.2.2.2] at ho
+          rw [iv.2.2.1, iv.2.2.2.1]
+          have hneed := h.n id o ho hp
+          rcases h.loc id o ho with hl | hl
+          · rcases hl with a | a | a | a | a | a | a
+            · exact .inl a
+            · exact .inr a
+            · have := (connect_class _ (ha id (List.mem_append_left _ a) o ho)).2
+              rw [this] at hneed; cases hneed
+            · have := (connect_class _ (hb id a o ho)).2
+              rw [this] at hneed; cases hneed
+            · have := h.wc id a o ho
+              rw [this] at hneed; cases hneed
+            · rw [show e.view.pendingPub = [] from hpp] at a; cases a
+            · rw [show e.view.pendingNonPub = [] from hpn] at a; cases a
+          · cases hl
+        -- the two cases of the session flag
+        have fin : (e2.applySessionPresent c.sessionPresent).1.core.Ok → 
+            Big [] [] (e2.applySessionPresent c.sessionPresent).1.view ∧ SQ (e2.applySessionPresent c.sessionPresent).1.view ∧
+            (e2.applySessionPresent c.sessionPresent).1.state = .connected := by
+          intro _
+          rw [applySessionPresent_fst]
+          cases hsp : c.sessionPresent with
+          | true =>
+            simp only [Bool.not_true, Bool.false_eq_true, ↓reduceIte]
+            have r := sessionRequeueStage_big e2 hok2 (h2.weaken (fun _ hi => hi) (fun _ hi => by cases hi)) hj2
+            exact ⟨r.2.1, fun _ => ⟨r.2.2.1, r.2.2.2.1⟩, r.2.2.2.2.trans hst2⟩
+          | false =>
+            simp only [Bool.not_false, ↓reduceIte]
+            have l := sessionLostStage_big e2 hok2 h2 hj2 hst2 hOff
+            have r := sessionRequeueStage_big e2.sessionLostStage.1 l.1 l.2.1 l.2.2.1
+            exact ⟨r.2.1, fun _ => ⟨r.2.2.1, r.2.2.2.1⟩, r.2.2.2.2.trans (l.2.2.2.trans hst2)⟩
+        have hk3 : (e2.applySessionPresent c.sessionPresent).1.core.Ok := by
+          have := applySessionPresent_pres e2 c.sessionPresent hok2
+          exact this.1
+        obtain ⟨b3, s3, st3⟩ := fin hk3
+        have hD3 : D1 (e2.applySessionPresent c.sessionPresent).1.view := by
+          intro hd
+          rw [show (e2.applySessionPresent c.sessionPresent).1.view.state = (e2.applySessionPresent c.sessionPresent).1.state from rfl, st3] at hd
+          cases hd
+        show Inv (if !(e2.applySessionPresent c.sessionPresent).2.isOk then ((e2.applySessionPresent c.sessionPresent).1, (e2.applySessionPresent c.sessionPresent).2)
+          else ({ (e2.applySessionPresent c.sessionPresent).1 with outEvents := (e2.applySessionPresent c.sessionPresent).1.outEvents ++ [Packet.connack c] }, Res.ok)).1 ∧
+          ((if !(e2.applySessionPresent c.sessionPresent).2.isOk then ((e2.applySessionPresent c.sessionPresent).1, (e2.applySessionPresent c.sessionPresent).2)
+          else ({ (e2.applySessionPresent c.sessionPresent).1 with outEvents := (e2.applySessionPresent c.sessionPresent).1.outEvents ++ [Packet.connack c] }, Res.ok)).1.state = e.state ∨
+           (if !(e2.applySessionPresent c.sessionPresent).2.isOk then ((e2.applySessionPresent c.sessionPresent).1, (e2.applySessionPresent c.sessionPresent).2)
+          else ({ (e2.applySessionPresent c.sessionPresent).1 with outEvents := (e2.applySessionPresent c.sessionPresent).1.outEvents ++ [Packet.connack c] }, Res.ok)).1.state = .connected)
+        split
+        · exact ⟨⟨hk3, b3, hD3, s3⟩, .inr st3⟩
+        · exact ⟨⟨hk3, b3, hD3, s3⟩, .inr st3⟩
+
+/-! ### inbound packets -/
+
+/-- neither queue changes, and the state stays or becomes Halted -/
+def QV (v v' : View) : Prop := v'.userQ = v.userQ ∧ v'.resubQ = v.resubQ ∧ (v'.state = v.state ∨ v'.state = .halted)
+
+theorem QV.refl (v : View) : QV v v := ⟨rfl, rfl, .inl rfl⟩
+
+theorem QV.trans {a b c : View} (h1 : QV a b) (h2 : QV b c) : QV a c :=
+  ⟨h2.1.trans h1.1, h2.2.1.trans h1.2.1, by
+    rcases h2.2.2 with x | x
+    · rcases h1.2.2 with y | y
+      · exact .inl (x.trans y)
+      · exact .inr (x.trans y)
+    · exact .inr x⟩
+
+theorem QV.of_eq {v v' : View} (h : v' = v) : QV v v' := by rw [h]; exact QV.refl v
+
+/-- a handler: both layers of the invariant are kept and the queues are left alone -/
+structure HK (e e' : Engine) : Prop where
+  stp : Stp [] [] [] [] e e'
+  qv : QV e.view e'.view
+
+theorem HK.refl (e : Engine) : HK e e := ⟨Stp.refl _ _ _, QV.refl _⟩
+theorem HK.trans {a b c : Engine} (h1 : HK a b) (h2 : HK b c) : HK a c := ⟨h1.stp.trans h2.stp, h1.qv.trans h2.qv⟩
+theorem HK.of_eq {a b : Engine} (hc : b.core = a.core) (hv : b.view = a.view) : HK a b := ⟨Stp.of_eq hc hv, QV.of_eq hv⟩
+theorem HK.halt {a b : Engine} (h : HK a b) : HK a { b with state := .halted } :=
+  ⟨h.stp.halt, ⟨h.qv.1, h.qv.2.1, .inr rfl⟩⟩
+
+theorem completeSuccess_hk (e : Engine) (id : Nat) (c : Option Completion)
+    (hres : ∀ o, e.op? id = some o → o.user.isSome = true → (resultFor o.packet c).isSome = true) : HK e (e.completeSuccess id c).1 := by
+  refine ⟨completeSuccess_step e id c hres, ?_⟩
+  cases ho : e.op? id with
+  | none => simp only [Engine.completeSuccess, ho]; exact QV.refl _
+  | some o =>
+    obtain ⟨s', hv, hs⟩ := completeSuccess_view e id c o ho
+    rw [hv]
+    refine ⟨rfl, rfl, ?_⟩
+    rcases hs with a | a
+    · exact .inl a
+    · exact .inr a.2
+
+theorem completeFailure_hk (e : Engine) (id : Nat) (k : String) : HK e (e.completeFailure id k).1 := by
+  refine ⟨completeFailure_step e id k, ?_⟩
+  cases ho : e.op? id with
+  | none => simp only [Engine.completeFailure, ho]; exact QV.refl _
+  | some o =>
+    obtain ⟨s', hv, hs⟩ := completeFailure_view e id k o ho
+    rw [hv]
+    refine ⟨rfl, rfl, ?_⟩
+    rcases hs with a | a
+    · exact .inl a
+    · exact .inr a.2
+
+theorem handlePingresp_hk (e : Engine) : HK e e.handlePingresp.1 := by
+  unfold Engine.handlePingresp
+  split
+  · split
+    · exact HK.of_eq rfl rfl
+    · exact HK.refl _
+  · exact HK.refl _
+
+theorem handleSuback_hk (e : Engine) (s : Suback) : HK e (e.handleSuback s).1 := by
+  unfold Engine.handleSuback
+  split
+  · exact HK.refl _
+  · cases hl : e.pendingNonPub.lookup s.packetId with
+    | none => exact HK.refl _
+    | some opId =>
+      simp only []
+      cases ho : e.op? opId with
+      | none => exact HK.refl _
+      | some o =>
+        simp only []
+        cases hp : o.packet <;> simp only [] <;> try exact HK.refl _
+        split
+        · exact HK.refl _
+        · apply completeSuccess_hk
+          intro o' ho' _
+          rw [ho] at ho'; cases ho'; rw [hp]; rfl
+
+theorem handleUnsuback_hk (e : Engine) (s : Suback) : HK e (e.handleUnsuback s).1 := by
+  unfold Engine.handleUnsuback
+  split
+  · exact HK.refl _
+  · cases hl : e.pendingNonPub.lookup s.packetId with
+    | none => exact HK.refl _
+    | some opId =>
+      simp only []
+      cases ho : e.op? opId with
+      | none => exact HK.refl _
+      | some o =>
+        simp only []
+        cases hp : o.packet <;> simp only [] <;> try exact HK.refl _
+        have hres : ∀ codes, ∀ o', e.op? opId = some o' → o'.user.isSome = true → (resultFor o'.packet (some (.unsuback s.packetId codes))).isSome = true := by
+          intro codes o' ho' _
+          rw [ho] at ho'; cases ho'; rw [hp]; rfl
+        split
+        · exact completeSuccess_hk _ _ _ (hres _)
+        · split
+          · exact HK.refl _
+          · exact completeSuccess_hk _ _ _ (hres _)
+
+theorem handlePuback_hk (e : Engine) (a : Ack) : HK e (e.handlePuback a).1 := by
+  unfold Engine.handlePuback
+  split
+  · exact HK.refl _
+  · cases hl : e.pendingPub.lookup a.packetId with
+    | none => exact HK.refl _
+    | some opId =>
+      simp only []
+      split
+      · rename_i hq
+        apply completeSuccess_hk
+        intro o' ho' _
+        rw [ho'] at hq
+        simp only [Option.bind_some, beq_iff_eq] at hq
+        obtain ⟨pb, hpb⟩ := publishQos_some _ _ hq
+        rw [hpb]; rfl
+      · exact HK.refl _
+
+theorem handlePubcomp_hk (e : Engine) (a : Ack) : HK e (e.handlePubcomp a).1 := by
+  unfold Engine.handlePubcomp
+  split
+  · exact HK.refl _
+  · cases hl : e.pendingPub.lookup a.packetId with
+    | none => exact HK.refl _
+    | some opId =>
+      simp only []
+      cases ho : e.op? opId with
+      | none => exact HK.refl _
+      | some o =>
+        simp only []
+        cases hp : o.packet <;> simp only [] <;> try exact HK.refl _
+        split
+        · split
+          · split
+            · exact HK.refl _
+            · apply completeSuccess_hk
+              intro o' ho' _
+              rw [ho] at ho'; cases ho'; rw [hp]; rfl
+          · exact HK.refl _
+        · exact HK.refl _
+
+theorem handleDisconnect_hk (e : Engine) (d : Disconnect) : HK e (e.handleDisconnect d).1 := by
+  unfold Engine.handleDisconnect
+  split
+  · exact HK.refl _
+  · split
+    · exact HK.refl _
+    · exact HK.of_eq rfl rfl
+
+theorem handlePubrec_branch_pres (e : Engine) (a : Ack) (opId : Nat) (o : Op) (ho : e.op? opId = some o) :
+    Pres e (match (e.setOp { o with pubrel := some (.pubrel { packetId := a.packetId }) }).enqueue opId .high false with
+      | some e2 => (e2, Res.ok)
+      | none => (e.setOp { o with pubrel := some (.pubrel { packetId := a.packetId }) }, Res.panic "enqueue_nonexistent_operation")).1 := by
+  intro hok
+  have hid := hok.id_eq (show e.core.ops.lookup opId = some o from ho)
+  have h1 := setOp_pres e o { o with pubrel := some (.pubrel { packetId := a.packetId }) }
+    (by simpa [hid] using ho) rfl rfl rfl rfl
+  cases henq : (e.setOp { o with pubrel := some (.pubrel { packetId := a.packetId }) }).enqueue opId .high false with
+  | none => exact h1 hok
+  | some e2 => exact (h1.trans (enqueue_pres _ _ _ _ _ henq)) hok
+
+theorem stateBlocksAcks_false {s : PState} (h : stateBlocksAcks s = false) : s ≠ .disconnected ∧ s ≠ .pendingConnack := by
+  cases s <;> simp [stateBlocksAcks] at h <;> exact ⟨by decide, by decide⟩
+
+/-- creating an internal acknowledgement / ping operation and queueing it at the back of the high-priority queue -/
+theorem createEnqueueHigh_hk (e1 : Engine) (p : Packet) (front : Bool) (hnp : isAckedPublish p = false) (hst : e1.state ≠ .pendingConnack) :
+    HK e1 (match (e1.createOp p none).1.enqueue (e1.createOp p none).2 .high front with
+      | some e3 => (e3, Res.ok)
+      | none => ((e1.createOp p none).1, Res.panic "enqueue_nonexistent_operation")).1 := by
+  obtain ⟨hpa, hcr⟩ := createOp_step (S := []) (U := []) e1 p none (by simp)
+  obtain ⟨f1, f2, f3, f4, f5, f6⟩ := createOp_fields e1 p none
+  have hop : ((e1.createOp p none).1.op? e1.nextOpId).isNone = false := by
+    simp only [Engine.op?, f6]; rfl
+  rw [f1]
+  simp only [Engine.enqueue, hop, Bool.false_eq_true, ↓reduceIte]
+  refine ⟨⟨?_, ?_⟩, ?_⟩
+  · exact (createOp_internal_pres e1 p).trans (Pres.of_core_eq rfl)
+  · intro hok h
+    exact big_enqueue_high (e1.createOp p none).1 e1.nextOpId _ front (hcr hok h) f6 (by rw [f2]; exact Nat.lt_succ_self _)
+      (by rw [f5]; intro hh; exact absurd hh hst) hnp rfl
+  · exact ⟨rfl, rfl, .inl rfl⟩
+
+theorem handlePubrel_hk (e : Engine) (a : Ack) : HK e (e.handlePubrel a).1 := by
+  unfold Engine.handlePubrel
+  split
+  · exact HK.refl _
+  · rename_i hs
+    have hst := stateBlocksAcks_false (by simpa using hs)
+    simp only []
+    have h1 : HK e { e with inQos2 := e.inQos2.filter (· != a.packetId) } := HK.of_eq rfl rfl
+    exact h1.trans (createEnqueueHigh_hk _ (.pubcomp { packetId := a.packetId }) false rfl hst.2)
+
+theorem handlePublish_hk (e : Engine) (p : Publish) : HK e (e.handlePublish p).1 := by
+  unfold Engine.handlePublish
+  split
+  · exact HK.refl _
+  · rename_i hs
+    have hst := stateBlocksAcks_false (by simpa using hs)
+    split
+    · exact HK.of_eq rfl rfl
+    · split
+      · simp only []
+        have h1 : HK e { e with outEvents := e.outEvents ++ [Packet.publish p] } := HK.of_eq rfl rfl
+        exact h1.trans (createEnqueueHigh_hk _ (.puback { packetId := p.packetId }) false rfl hst.2)
+      · simp only []
+        have h1 : HK e (if e.inQos2.contains p.packetId then e
+            else { e with outEvents := e.outEvents ++ [Packet.publish p], inQos2 := insertSorted p.packetId e.inQos2 }) := by
+          split
+          · exact HK.refl _
+          · exact HK.of_eq rfl rfl
+        have hst1 : (if e.inQos2.contains p.packetId then e
+            else { e with outEvents := e.outEvents ++ [Packet.publish p], inQos2 := insertSorted p.packetId e.inQos2 }).state ≠ .pendingConnack := by
+          split <;> exact hst.2
+        exact h1.trans (createEnqueueHigh_hk _ (.pubrec { packetId := p.packetId }) false rfl hst1)
+
+theorem handlePubrec_hk (e : Engine) (a : Ack) : HK e (e.handlePubrec a).1 := by
+  unfold Engine.handlePubrec
+  split
+  · exact HK.refl _
+  · rename_i hs
+    have hst := stateBlocksAcks_false (by simpa using hs)
+    cases hl : e.pendingPub.lookup a.packetId with
+    | none => exact HK.refl _
+    | some opId =>
+      simp only []
+      cases ho : e.op? opId with
+      | none => exact HK.refl _
+      | some o =>
+        simp only []
+        have hbranch : HK e (match (e.setOp { o with pubrel := some (.pubrel { packetId := a.packetId }) }).enqueue opId .high false with
+            | some e2 => (e2, Res.ok)
+            | none => (e.setOp { o with pubrel := some (.pubrel { packetId := a.packetId }) }, Res.panic "enqueue_nonexistent_operation")).1 := by
+          refine ⟨⟨handlePubrec_branch_pres e a opId o ho, ?_⟩, ?_⟩
+          · intro hok h
+            have hid := hok.id_eq (show e.core.ops.lookup opId = some o from ho)
+            subst hid
+            have hmem : o.id ∈ vals e.view.pendingPub := mem_vals_of_lookup hl
+            have h1 : Big [] [] (e.setOp { o with pubrel := some (.pubrel { packetId := a.packetId }) }).view := by
+              rw [setOp_view]
+              exact h.replace (o' := { o with pubrel := some (.pubrel { packetId := a.packetId }) }) (show e.view.ops.lookup o.id = some o from ho)
+                rfl rfl rfl rfl rfl rfl (fun _ => .inr (.inl hmem)) (fun _ _ => rfl) (fun _ _ => hmem)
+            have hop : ((e.setOp { o with pubrel := some (.pubrel { packetId := a.packetId }) }).op? o.id).isNone = false := by
+              simp only [Engine.op?, Engine.setOp, lookup_mapInsert_self]; rfl
+            simp only [Engine.enqueue, hop, Bool.false_eq_true, ↓reduceIte]
+            show Big [] [] { (e.setOp { o with pubrel := some (.pubrel { packetId := a.packetId }) }).view with highQ := e.highQ ++ [o.id] }
+            have hlook : (e.setOp { o with pubrel := some (.pubrel { packetId := a.packetId }) }).view.ops.lookup o.id =
+                some { o with pubrel := some (.pubrel { packetId := a.packetId }) } := by
+              simp only [Engine.view, Engine.setOp, lookup_mapInsert_self]
+            refine h1.setHighQ (e.highQ ++ [o.id]) (fun i hi => .inl (List.mem_append_left _ hi)) (fun i hi => by cases hi) ?_ ?_ ?_ ?_
+            · intro i hi
+              rcases List.mem_append.mp hi with b | b
+              · exact h.qb.1 i (by simp only [List.mem_append]; exact .inl (.inr b))
+              · rw [List.mem_singleton.mp b]; exact (hok.ids _ (mem_of_lookup (show e.core.ops.lookup o.id = some o from ho))).2
+            · intro i hi x hx hk
+              rcases List.mem_append.mp hi with b | b
+              · exact h1.h2 i b x hx hk
+              · rw [List.mem_singleton.mp b] at hx
+                rw [hlook] at hx; cases hx; rfl
+            · intro i hi x hx hk
+              rcases List.mem_append.mp hi with b | b
+              · exact h1.pr2 i b x hx hk
+              · rw [List.mem_singleton.mp b]; exact hmem
+            · intro hd
+              exact absurd (show e.state = .pendingConnack from hd) hst.2
+          · have hop : ((e.setOp { o with pubrel := some (.pubrel { packetId := a.packetId }) }).op? opId).isNone = false ∨
+                ((e.setOp { o with pubrel := some (.pubrel { packetId := a.packetId }) }).op? opId).isNone = true := by
+              cases ((e.setOp { o with pubrel := some (.pubrel { packetId := a.packetId }) }).op? opId).isNone <;> simp
+            rcases hop with hop | hop
+            · simp only [Engine.enqueue, hop, Bool.false_eq_true, ↓reduceIte]; exact ⟨rfl, rfl, .inl rfl⟩
+            · simp only [Engine.enqueue, hop, ↓reduceIte]; exact ⟨rfl, rfl, .inl rfl⟩
+        cases hp : o.packet <;> simp only [] <;> try exact HK.refl _
+        rw [hp] at hbranch
+        split
+        · split
+          · split
+            · exact HK.refl _
+            · apply completeSuccess_hk
+              intro o' ho' _
+              rw [ho] at ho'; cases ho'; rw [hp]; rfl
+          · exact hbranch
+        · exact HK.refl _
+
+theorem HK.inv {e e' : Engine} (hk : HK e e') (hinv : Inv e) (hnd : e.state ≠ .disconnected) : Inv e' ∧ e'.state ≠ .disconnected := by
+  obtain ⟨hok, h, _, hS⟩ := hinv
+  have hst : e'.state = e.state ∨ e'.state = .halted := hk.qv.2.2
+  have hnd' : e'.state ≠ .disconnected := by
+    rcases hst with a | a
+    · rw [a]; exact hnd
+    · rw [a]; decide
+  refine ⟨⟨(hk.stp.pres hok).1, hk.stp.keeps hok h, fun hd => absurd hd hnd', ?_⟩, hnd'⟩
+  intro hc
+  have hc' : e'.state = .connected := hc
+  rcases hst with a | a
+  · have := hS (by show e.state = .connected; rw [← a]; exact hc')
+    rw [show e'.view.userQ = e.view.userQ from hk.qv.1, show e'.view.resubQ = e.view.resubQ from hk.qv.2.1]; exact this
+  · rw [a] at hc'; cases hc'
+
+/-- every inbound packet handler -/
+theorem handlePacket_inv (e : Engine) (p : Packet) (hinv : Inv e) (hnd : e.state ≠ .disconnected) :
+    Inv (e.handlePacket p).1 ∧ (e.handlePacket p).1.state ≠ .disconnected := by
+  cases p with
+  | connack c =>
+    simp only [Engine.handlePacket]
+    obtain ⟨a, b⟩ := handleConnack_inv e c hinv
+    refine ⟨a, ?_⟩
+    rcases b with b | b
+    · rw [b]; exact hnd
+    · rw [b]; decide
+  | publish pb => exact (handlePublish_hk e pb).inv hinv hnd
+  | pingresp => exact (handlePingresp_hk e).inv hinv hnd
+  | disconnect d => exact (handleDisconnect_hk e d).inv hinv hnd
+  | suback s => exact (handleSuback_hk e s).inv hinv hnd
+  | unsuback s => exact (handleUnsuback_hk e s).inv hinv hnd
+  | puback a => exact (handlePuback_hk e a).inv hinv hnd
+  | pubcomp a => exact (handlePubcomp_hk e a).inv hinv hnd
+  | pubrel a => exact (handlePubrel_hk e a).inv hinv hnd
+  | pubrec a => exact (handlePubrec_hk e a).inv hinv hnd
+  | connect _ => exact ⟨hinv, hnd⟩
+  | subscribe _ => exact ⟨hinv, hnd⟩
+  | unsubscribe _ => exact ⟨hinv, hnd⟩
+  | pingreq => exact ⟨hinv, hnd⟩
+  | auth _ => exact ⟨hinv, hnd⟩
+
+theorem Inv.halt {e : Engine} (h : Inv e) : Inv { e with state := .halted } := by
+  obtain ⟨hok, hb, _, _⟩ := h
+  exact ⟨((Pres.refl e).halt hok).1, hb.halt, (fun hd => by cases hd), (fun hd => by cases hd)⟩
+
+theorem dispatchPacket_inv (e1 : Engine) (p1 : Packet) (hinv : Inv e1) (hnd : e1.state ≠ .disconnected) :
+    Inv (e1.dispatchPacket p1).1 ∧ (e1.dispatchPacket p1).1.state ≠ .disconnected := by
+  unfold Engine.dispatchPacket
+  split
+  · exact ⟨hinv.halt, fun hh => by cases hh⟩
+  · have h2 := handlePacket_inv e1 p1 hinv hnd
+    generalize e1.handlePacket p1 = x at h2 ⊢
+    obtain ⟨e2, r⟩ := x
+    simp only [] at h2 ⊢
+    split
+    · exact ⟨h2.1.halt, fun hh => by cases hh⟩
+    · exact h2
+
+theorem Inv.of_eq {e e' : Engine} (h : Inv e) (hc : e'.core = e.core) (hv : e'.view = e.view) : Inv e' := by
+  obtain ⟨hok, hb, hd, hs⟩ := h
+  exact ⟨by rw [hc]; exact hok, by rw [hv]; exact hb, by rw [hv]; exact hd, by rw [hv]; exact hs⟩
+
+theorem handleOnePacket_inv (e : Engine) (p : Packet) (hinv : Inv e) (hnd : e.state ≠ .disconnected) :
+    Inv (e.handleOnePacket p).1 ∧ (e.handleOnePacket p).1.state ≠ .disconnected := by
+  unfold Engine.handleOnePacket
+  cases p with
+  | publish pb =>
+    simp only []
+    cases hr : e.inRes.resolve pb.topicAlias pb.topic with
+    | none => exact ⟨hinv, hnd⟩
+    | some x =>
+      obtain ⟨r', t⟩ := x
+      exact dispatchPacket_inv { e with inRes := r' } _ (hinv.of_eq rfl rfl) hnd
+  | _ => exact dispatchPacket_inv e _ hinv hnd
+
+theorem handlePackets_inv : ∀ (ps : List Packet) (e : Engine), Inv e → e.state ≠ .disconnected →
+    Inv (e.handlePackets ps).1 ∧ (e.handlePackets ps).1.state ≠ .disconnected := by
+  intro ps
+  induction ps with
+  | nil => intro e h hnd; exact ⟨h, hnd⟩
+  | cons p rest ih =>
+    intro e h hnd
+    unfold Engine.handlePackets
+    have h1 := handleOnePacket_inv e p h hnd
+    generalize e.handleOnePacket p = x at h1 ⊢
+    obtain ⟨e1, r⟩ := x
+    simp only [] at h1 ⊢
+    split
+    · exact h1
+    · exact ih e1 h1.1 h1.2
+
+/-- **`handle_network_event_incoming_data` keeps the invariant**, whatever the bytes -/
+theorem handleData_inv (e : Engine) (bs : Bytes) (hinv : Inv e) : Inv (e.handleData bs).1 := by
+  unfold Engine.handleData
+  split
+  · exact hinv
+  · rename_i hst
+    have hnd : e.state ≠ .disconnected := by
+      intro hh; rw [hh] at hst; simp at hst
+    split
+    · exact hinv.halt
+    · simp only []
+      have h1 : Inv { e with dec := (decodeBytes { version := e.cfg.version, maxSize := e.cfg.connect.maximumPacketSize.getD maxVli } e.dec bs).dec } :=
+        hinv.of_eq rfl rfl
+      split
+      · exact h1.halt
+      · exact (handlePackets_inv _ _ h1 hnd).1
 
 end GV
